@@ -32,6 +32,35 @@ fn parse<T: DeserializeOwned>(e: &Enc, reader: bool) -> Option<T> {
     }
 }
 
+/// `Deserialize::deserialize_in_place` into a live, valid wrapper (what `Vec<T>` / tuple / struct
+/// field decoding with reused storage does): whatever the outcome, the wrapper must still be valid
+/// afterwards; on success it holds the decoded value.
+fn in_place<T>(what: &str, e: &Enc, place: &mut T) -> Result<bool, Fail>
+where
+    T: DeserializeOwned,
+{
+    use bincode::Options;
+    let r = guard(|| match e {
+        Enc::Bin(b) => {
+            let opts = bincode::DefaultOptions::new().with_fixint_encoding().allow_trailing_bytes().with_limit(1 << 20);
+            let mut de = bincode::Deserializer::from_slice(b, opts);
+            serde::Deserialize::deserialize_in_place(&mut de, place).is_ok()
+        }
+        Enc::Json(s) => {
+            let mut de = serde_json::Deserializer::from_str(s);
+            serde::Deserialize::deserialize_in_place(&mut de, place).is_ok()
+        }
+    });
+    match r {
+        Ok(ok) => Ok(ok),
+        // a panic while decoding: no value produced; the place is still inspected by the caller
+        Err(_) => {
+            let _ = what;
+            Ok(false)
+        }
+    }
+}
+
 /// `framed`: the wire form of the payload carries a u64 length prefix (serdect writes byte arrays
 /// through `serialize_bytes`; a Limb is a bare u64).
 fn mangle_bin(t: &mut Tape, c: &mut Case, payload: Vec<u8>, framed: bool) -> Vec<u8> {
@@ -195,6 +224,38 @@ where
     // round trips of valid wrappers (Serialize delegates to the inner value)
     let x = total("NonZero::new(valid)", || NonZero::new(uint::<N>(&xl)).unwrap())?;
     let p = total("Odd::new(valid)", || Odd::new(uint::<N>(&pl)).unwrap())?;
+    // the same encoding decoded *in place* over a live valid wrapper
+    {
+        let mut place = x;
+        let ok = in_place(&format!("{kind} deserialize_in_place::<NonZero<Uint>>"), &enc, &mut place)?;
+        inv_nz(&format!("{kind} deserialize_in_place::<NonZero<Uint>> (place after the call, success = {ok})"), &place)?;
+        veq!(ok, nz_ok, "{kind} deserialize_in_place::<NonZero<Uint>>: success");
+        if ok {
+            veq!((*place).words(), want.clone(), "{kind} deserialize_in_place::<NonZero<Uint>>: value");
+        }
+        let mut place = p;
+        let ok = in_place(&format!("{kind} deserialize_in_place::<Odd<Uint>>"), &enc, &mut place)?;
+        inv_odd(&format!("{kind} deserialize_in_place::<Odd<Uint>> (place after the call, success = {ok})"), &place)?;
+        veq!(ok, odd_ok, "{kind} deserialize_in_place::<Odd<Uint>>: success");
+        if ok {
+            veq!((*place).words(), want.clone(), "{kind} deserialize_in_place::<Odd<Uint>>: value");
+        }
+        // containers that reuse storage: Vec<T>::deserialize_in_place over a vector of valid wrappers
+        let mut places = vec![x, x];
+        let two = match &enc {
+            Enc::Bin(b) => {
+                let mut v = 2u64.to_le_bytes().to_vec();
+                v.extend_from_slice(b);
+                v.extend_from_slice(b);
+                Enc::Bin(v)
+            }
+            Enc::Json(s) => Enc::Json(format!("[{s},{s}]")),
+        };
+        let _ = in_place("deserialize_in_place::<Vec<NonZero<Uint>>>", &two, &mut places)?;
+        for q in places.iter() {
+            inv_nz(&format!("{kind} deserialize_in_place::<Vec<NonZero<Uint>>> (element after the call)"), q)?;
+        }
+    }
     let bx = total("bincode::serialize(NonZero)", || bincode::serialize(&x).unwrap())?;
     expect_nz("bincode round trip NonZero<Uint>", parse::<NonZero<Uint<N>>>(&Enc::Bin(bx), false), true, &xl)?;
     let bp = total("bincode::serialize(Odd)", || bincode::serialize(&p).unwrap())?;
